@@ -142,7 +142,7 @@ func (o *Out) Close() error {
 		names := make([]string, 0, len(o.terms[s]))
 		for i, t := range o.terms[s] {
 			fmt.Fprintf(&b, "Definition c%d := %s.\n", i, t)
-			names = append(names, fmt.Sprintf("(%d%%nat, c%d)", o.idx[s][i], i))
+			names = append(names, fmt.Sprintf("(%d%%uint63, c%d)", o.idx[s][i], i))
 		}
 		// chunk the list literal so that Coq's list notation does not nest too deep
 		var chunks []string
